@@ -43,12 +43,12 @@ def triples():
 
 
 def cases(tier, seed):
-    per = 60 if tier == "quick" else 4000
+    per = 60 if tier == "quick" else 12000
     out = []
     for name, _, _, _ in triples():
         for j in range(0, per, 10):
             out.append({"kind": "triple", "triple": name, "from": j, "count": 10, "seed": seed})
-    for j in range(0, 40 if tier == "quick" else 2000, 5):
+    for j in range(0, 40 if tier == "quick" else 8000, 5):
         out.append({"kind": "two-level", "kit": ["cidar", "ecoflex"][(j // 5) % 2], "from": j, "count": 5, "seed": seed})
     return out
 
